@@ -414,8 +414,21 @@ func c01Cmp(w *World, m *types.Func, op string) []string {
 		return true
 	})
 	get := func(i int) (*ast.FuncLit, types.Object) {
-		o := objOfIdent(p, calls[0].Args[i])
-		return lits[o], o
+		arg := ast.Unparen(calls[0].Args[i])
+		if fl, ok := arg.(*ast.FuncLit); ok {
+			return fl, nil
+		}
+		o := objOfIdent(p, arg)
+		if fl, ok := lits[o]; ok {
+			return fl, o
+		}
+		// a named function of the package used as comparator: read like a closure that captures nothing
+		if fn, ok := o.(*types.Func); ok && fn.Pkg() == p.Types {
+			if nfd, _ := w.FuncDecl(fn); nfd != nil && nfd.Body != nil && nfd.Recv == nil {
+				return &ast.FuncLit{Type: nfd.Type, Body: nfd.Body}, o
+			}
+		}
+		return nil, o
 	}
 	boolFn, _ := get(0)
 	litFn, _ := get(1)
